@@ -115,6 +115,12 @@ def arr_map(E, fn, arrs, kind, node=None):
     for a in arrs:
         if isinstance(a, NdArr) and (ref is None or a.ndim > ref.ndim):
             ref = a
+    one = lambda s_: isinstance(s_, int) and s_ == 1
+    for a in arrs:
+        # the reference shape is the one the others are stretched to: not an operand with an axis of extent 1 where another one has more
+        if isinstance(a, NdArr) and a is not ref and a.ndim == ref.ndim and any(one(r) and not one(s_) for s_, r in zip(a.shape, ref.shape)) \
+                and not any(one(s_) and not one(r) for s_, r in zip(a.shape, ref.shape)):
+            ref = a
     stretched = {}       # id(array) -> axes of extent 1 (e.g. v[:, numpy.newaxis]) that numpy stretches along the reference shape
     for a in arrs:
         if isinstance(a, NdArr) and a is not ref:
@@ -708,8 +714,10 @@ def install(R):
                 ka = a.kind if isinstance(a, NdArr) else kind_of_scalar(a)
                 kb = b.kind if isinstance(b, NdArr) else kind_of_scalar(b)
                 k = kind or join_kind(ka, kb)
-                return arr_map(E, lambda x, y: fn(cast(x, k if kind is None else join_kind(ka, kb)),
-                                                   cast(y, k if kind is None else join_kind(ka, kb))), [a, b], k)
+                return _into_out(E, arr_map(E, lambda x, y: fn(cast(x, k if kind is None else join_kind(ka, kb)),
+                                                               cast(y, k if kind is None else join_kind(ka, kb))), [a, b], k), kw)
+            if kw.get("out") is not None:
+                raise Unsupported("numpy.%s of scalars with out=" % name)
             return z3.simplify(fn(znum(a), znum(b)))
         return _b
 
